@@ -76,7 +76,7 @@ Definition create_object (d : decl) (caus released : vv) : object + panic :=
   | DRwLock => inl (ORwLock (mkRw None None vv_new))
   | DCondvar => inl (OCondvar (mkCv None []))
   | DNotify => inl (ONotify (mkNotify true false false false None vv_new))
-  | DChan => inl (OChannel (mkChan 0 None None vv_new []))
+  | DChan => inl (OChannel (mkChan 0 None None vv_new [] None))
   | DCell => inl (OCell (cell_new caus))
   | DArc => inl (OArc (mkArc 1 vv_new None None None None))
   | DTrack => inl (OAlloc false)
